@@ -50,4 +50,6 @@ type Convergen interface {
 	To40(*Src) *Dst40
 	To41(*Src) *Dst41
 	To42(*Src) *Dst42
+	To43(*Src) *Dst43
+	To44(*Src) *Dst44
 }
